@@ -2,8 +2,9 @@
 written for the current cores, the micro matrices are square of the size of the core being solved (the generalized one
 of the same size), the eigenvector block reshapes are size-consistent, ranks never grow; C06: operator, operator_gevp and
 the initial guess are never written, the returned eigentensors are fresh and do not share cores.
-Scope of the verified instances: no deflation (`previous == []`); the deflation stacks are covered by the run-time
-contracts (T3) only."""
+Scope of the verified instances: deflation lists `previous` of length 0, 1 and 2 (a concrete number of deflated tensors -
+bounded in that count, unbounded in orders, dimensions and ranks); longer lists are covered by the run-time contracts
+(T3) only."""
 import z3
 from vt.e1.values import (SArr, SList, STT, SObj, SNum, SMaxRank, SInf, INF, SNone, NONE, SOpt, Unsupported, fresh, zi, zb)
 from vt.e1.symexec import FA, sym_elem_fn
@@ -11,7 +12,7 @@ from vt.e1.contract import (Contract, wf, positive_dims, lists_distinct, cores_f
                             mk_int_list, valid, type_domain, core_shape_ok)
 from vt.e1.tt_contracts import boundary_one
 from vt.e1.sle_contracts import (opt, stack_ok, sol_core_ok, Lop, Rop, square, mk_stack, tag_tt, tag_list, with_roles, roles_ok, merged_ok,
-                                  ROLES_OP, ROLES_SOL, ROLES_ENV_OP)
+                                  ROLES_OP, ROLES_SOL, ROLES_ENV_OP, ROLES_RHS, ROLES_ENV_RHS)
 
 REG = {}
 FILE = 'scikit_tt/solvers/evp.py'
@@ -51,19 +52,49 @@ def gevp_like(g, op):
     return z3.And(zi(g.order) == d, same_ints(g.row_dims, op.row_dims, d), same_ints(g.col_dims, op.col_dims, d), boundary_one(g))
 
 
+def PL(stl, prev, sol, j):
+    """left deflation environment j: <prev| ... |solution> over the cores 0..j-1, (rank of prev) x (rank of the solution)"""
+    return stack_ok(stl, j, [lst_get(prev.ranks, j), lst_get(sol.ranks, j)])
+
+
+def PR(stl, prev, sol, j):
+    return stack_ok(stl, j, [lst_get(prev.ranks, j + 1), lst_get(sol.ranks, j + 1)])
+
+
+def prev_like(p, op):
+    """a deflated eigentensor: a vector on the operator's column dimensions"""
+    d = zi(op.order)
+    return z3.And(zi(p.order) == d, same_ints(p.row_dims, op.col_dims, d), FA(0, d, lambda j: lst_get(p.col_dims, j) == 1), boundary_one(p))
+
+
+def prevs(tr):
+    pv = tr.f.get('previous')
+    if not (isinstance(pv, SList) and pv.items is not None and len(pv.items) <= 2 and all(isinstance(x, STT) for x in pv.items)):
+        raise Unsupported('evp helper with a deflation list that is not a list of at most two tensor trains (longer lists: run-time contracts only)')
+    return list(pv.items)
+
+
+def prev_stacks(st, side, n):
+    l = st.f.get('previous_' + side)
+    if not (isinstance(l, SList) and l.items is not None and len(l.items) == n and all(isinstance(x, SList) for x in l.items)):
+        raise Unsupported('deflation environments are not one list per deflated tensor')
+    return list(l.items)
+
+
 class _EvpHelper(Contract):
     file, cls = FILE, None
     props = ('C08',)
     auto_valid = False
 
     def instances(self):
-        return [{'gevp': False}, {'gevp': True}]
+        return [{'gevp': g, 'nprev': n} for n in (0, 1, 2) for g in (False, True)]
+
+    def quick_instances(self):
+        return [i for i in self.instances() if i['nprev'] <= 1]
 
     def call_inst(self, A):
         tr = A['trains']
-        if not (isinstance(tr.f.get('previous'), SList) and tr.f['previous'].items == []):
-            raise Unsupported('evp helper with a non-empty deflation list (covered by run-time contracts only)')
-        return {'gevp': isinstance(tr.f.get('operator_gevp'), STT)}
+        return {'gevp': isinstance(tr.f.get('operator_gevp'), STT), 'nprev': len(prevs(tr))}
 
     def mk_objects(self, ex, state, inst):
         m0 = ex.ctx.mark0
@@ -75,10 +106,13 @@ class _EvpHelper(Contract):
         tag_tt(g, ROLES_OP)
         tag_tt(sol, ROLES_SOL)
         trains, stacks = SObj(fresh('trains_ref')), SObj(fresh('stacks_ref'))
-        trains.f = {'operator': op, 'operator_gevp': g, 'solution': sol, 'previous': SList(fresh('prev_ref'), None, items=[])}
+        n = inst.get('nprev', 0)
+        pv = [tag_tt(mk_tt(state, 'previous%d' % q, m0, order=op.order), ROLES_RHS) for q in range(n)]
+        trains.f = {'operator': op, 'operator_gevp': g, 'solution': sol, 'previous': SList(fresh('prev_ref'), None, items=pv)}
         stacks.f = {'op_left': mk_stack(state, 'op_left', d, 3, m0), 'op_right': mk_stack(state, 'op_right', d, 3, m0),
                     'op_gevp_left': mk_stack(state, 'op_gevp_left', d, 3, m0), 'op_gevp_right': mk_stack(state, 'op_gevp_right', d, 3, m0),
-                    'previous_left': SList(fresh('pl_ref'), None, items=[]), 'previous_right': SList(fresh('pr_ref'), None, items=[])}
+                    'previous_left': SList(fresh('pl_ref'), None, items=[mk_stack(state, 'prev_left%d' % q, d, 2, m0) for q in range(n)]),
+                    'previous_right': SList(fresh('pr_ref'), None, items=[mk_stack(state, 'prev_right%d' % q, d, 2, m0) for q in range(n)])}
         return trains, stacks, fresh('i')
 
     def domain(self, S):
@@ -95,8 +129,13 @@ class _EvpHelper(Contract):
         yield 'solution-metadata', solution_meta(sol, op)
         yield 'i-in-range', z3.And(zi(a['i']) >= 0, zi(a['i']) < d)
         names = ['op_left', 'op_right'] + (['op_gevp_left', 'op_gevp_right'] if isinstance(g, STT) else [])
-        yield 'stack-lengths', z3.And(*[zi(st.f[n].len_term()) == d for n in names])
-        refs = [st.f[n].ref for n in names] + [sol.cores.ref, sol.ranks.ref, sol.row_dims.ref, sol.col_dims.ref]
+        pv = prevs(tr)
+        pst = prev_stacks(st, 'left', len(pv)) + prev_stacks(st, 'right', len(pv))
+        for q, p_ in enumerate(pv):
+            yield from type_domain('previous[%d]' % q, p_, m0)
+            yield 'previous[%d]-is-a-vector-on-the-column-dimensions' % q, prev_like(p_, op)
+        yield 'stack-lengths', z3.And(*[zi(st.f[n].len_term()) == d for n in names], *[zi(l.len_term()) == d for l in pst])
+        refs = [st.f[n].ref for n in names] + [l.ref for l in pst] + [sol.cores.ref, sol.ranks.ref, sol.row_dims.ref, sol.col_dims.ref]
         yield 'stacks-distinct-lists', z3.Distinct(*refs)
 
     def stacks_of(self, S, which):
@@ -116,11 +155,15 @@ class _EvpStackHelper(_EvpHelper):
         refs = [st.f['op_' + self.side].ref]
         if isinstance(tr.f['operator_gevp'], STT):
             refs.append(st.f['op_gevp_' + self.side].ref)
+        refs += [l.ref for l in prev_stacks(st, self.side, len(prevs(tr)))]
         return refs, []
 
     def mutated(self, A):
         st = A['stacks']
-        return [st.f['op_' + self.side], st.f['op_gevp_' + self.side]]
+        return [st.f['op_' + self.side], st.f['op_gevp_' + self.side]] + prev_stacks(st, self.side, len(prevs(A['trains'])))
+
+    def prev_slot(self, l, p_, sol, i):
+        raise NotImplementedError
 
     def slot(self, st, op, sol, i):
         raise NotImplementedError
@@ -140,6 +183,16 @@ class _EvpStackHelper(_EvpHelper):
             yield 'slot-buffer-fresh(%s)' % nm, a is not None and a.buf >= S.mark0
             # again an environment of <bra| . |ket>: conjugated cores on the bra legs, plain cores on the ket legs
             yield 'sesquilinear-roles(%s)' % nm, z3.BoolVal(roles_ok(lst_get(l, i), ROLES_ENV_OP))
+        pv = prevs(tr0)
+        for q, (p_, l, l0) in enumerate(zip(pv, prev_stacks(st, self.side, len(pv)), prev_stacks(st0, self.side, len(pv)))):
+            nm = 'previous_%s[%d]' % (self.side, q)
+            yield 'len(%s)' % nm, z3.And(zi(l.len_term()) == d, l.ref == l0.ref)
+            yield 'slot-i(%s)' % nm, self.prev_slot(l, p_, sol, i)
+            yield 'other-slots-unchanged(%s)' % nm, FA(0, d, lambda j, l=l, l0=l0: z3.Implies(j != i, _same_entry(lst_get(l, j), lst_get(l0, j))))
+            d_, a = opt(lst_get(l, i))
+            yield 'slot-buffer-fresh(%s)' % nm, a is not None and a.buf >= S.mark0
+            # <previous| . |solution>: the deflated tensor enters like a right-hand side, the solution conjugated
+            yield 'sesquilinear-roles(%s)' % nm, z3.BoolVal(roles_ok(lst_get(l, i), ROLES_ENV_RHS))
 
     def canary(self, S, res):
         d_, a = opt(lst_get(S.a['stacks'].f['op_' + self.side], zi(S.o['i'])))
@@ -150,6 +203,8 @@ class _EvpStackHelper(_EvpHelper):
         i = zi(A['i'])
         for nm in ['op_' + self.side] + (['op_gevp_' + self.side] if inst['gevp'] else []):
             st.f[nm].set(i, with_roles(SArr([fresh('st') for _ in range(3)], fresh('stcx', 'bool'), state.alloc(), True), ROLES_ENV_OP))
+        for l in prev_stacks(st, self.side, len(prevs(A['trains']))):
+            l.set(i, with_roles(SArr([fresh('pst') for _ in range(2)], fresh('pstcx', 'bool'), state.alloc(), True), ROLES_ENV_RHS))
         return NONE
 
 
@@ -172,10 +227,16 @@ class ConstructLeftStacks(_EvpStackHelper):
         c = [Lop(st.f['op_left'], op, sol, i - 1), sol_core_ok(sol, i - 1)]
         if isinstance(g, STT):
             c.append(Lop(st.f['op_gevp_left'], g, sol, i - 1))
+        pv = prevs(tr)
+        for p_, l in zip(pv, prev_stacks(st, 'left', len(pv))):
+            c += [PL(l, p_, sol, i - 1), core_shape_ok(lst_get(p_.cores, i - 1), lst_get(p_.ranks, i - 1), lst_get(p_.row_dims, i - 1), 1, lst_get(p_.ranks, i))]
         yield 'previous-entry-and-core', z3.Implies(i > 0, z3.And(*c))
 
     def slot(self, st, op, sol, i):
         return z3.If(i == 0, stack_ok(st, i, [1, 1, 1]), Lop(st, op, sol, i))
+
+    def prev_slot(self, l, p_, sol, i):
+        return z3.If(i == 0, stack_ok(l, i, [1, 1]), PL(l, p_, sol, i))
 
 
 @register
@@ -190,10 +251,16 @@ class ConstructRightStacks(_EvpStackHelper):
         c = [Rop(st.f['op_right'], op, sol, i + 1), sol_core_ok(sol, i + 1)]
         if isinstance(g, STT):
             c.append(Rop(st.f['op_gevp_right'], g, sol, i + 1))
+        pv = prevs(tr)
+        for p_, l in zip(pv, prev_stacks(st, 'right', len(pv))):
+            c.append(PR(l, p_, sol, i + 1))
         yield 'next-entry-and-core', z3.Implies(i < d - 1, z3.And(*c))
 
     def slot(self, st, op, sol, i):
         return Rop(st, op, sol, i)
+
+    def prev_slot(self, l, p_, sol, i):
+        return PR(l, p_, sol, i)
 
 
 @register
@@ -210,6 +277,9 @@ class ConstructMicroMatrices(_EvpHelper):
         c = [Lop(st.f['op_left'], op, sol, i), Rop(st.f['op_right'], op, sol, i)]
         if isinstance(g, STT):
             c += [Lop(st.f['op_gevp_left'], g, sol, i), Rop(st.f['op_gevp_right'], g, sol, i)]
+        pv = prevs(tr)
+        for p_, l, r in zip(pv, prev_stacks(st, 'left', len(pv)), prev_stacks(st, 'right', len(pv))):
+            c += [PL(l, p_, sol, i), PR(r, p_, sol, i)]
         yield 'environments-defined', z3.And(*c)
 
     def ensures(self, S, res):
@@ -354,7 +424,7 @@ class EvpAls(Contract):
                           'i in range(operator.order - 1, -1, -1)#3', 'i in range(number_ev)')
     loop_ordinals = {0: K0, 1: KW, 2: KF, 3: KB, 4: KE}
     var_kinds = {'eigentensor_opt': 'optional-tt'}
-    list_kinds = {'trains.solution.cores': 'arr5', 'eigentensors': 'ttref'}
+    list_kinds = {'trains.solution.cores': 'arr5', 'eigentensors': 'ttref', 'stacks.previous_left[]': 'optarr2', 'stacks.previous_right[]': 'optarr2'}
 
     @staticmethod
     def uses_heap(inst):
@@ -365,7 +435,10 @@ class EvpAls(Contract):
         return self.good(heap.tt_at(ref), state.old['operator'], state.old['initial_guess'], state.ctx.mark0)
 
     def instances(self):
-        return [{'solver': s, 'gevp': g, 'number_ev': n} for s in ('eig', 'eigs', 'eigh') for g in (False, True) for n in ('one', 'many')]
+        base = [{'solver': s, 'gevp': g, 'number_ev': n, 'nprev': 0} for s in ('eig', 'eigs', 'eigh') for g in (False, True) for n in ('one', 'many')]
+        # deflation: one and two deflated tensors (a concrete count), a representative choice of the other switches
+        return base + [{'solver': 'eig', 'gevp': False, 'number_ev': 'one', 'nprev': 1}, {'solver': 'eig', 'gevp': True, 'number_ev': 'one', 'nprev': 1},
+                       {'solver': 'eigh', 'gevp': False, 'number_ev': 'many', 'nprev': 2}]
 
     @staticmethod
     def good(t, op, g0, mark0):
@@ -386,7 +459,7 @@ class EvpAls(Contract):
         return z3.BoolVal(False)
 
     def quick_instances(self):
-        return [i for i in self.instances() if i['solver'] == 'eig' or (i['gevp'] and i['number_ev'] == 'many')]
+        return [i for i in self.instances() if (i['solver'] == 'eig' or (i['gevp'] and i['number_ev'] == 'many')) and i['nprev'] <= 1]
 
     def defaults(self):
         return {'previous': SList(0, None, items=[]), 'shift': 0, 'operator_gevp': NONE, 'number_ev': 1, 'repeats': 1, 'conv_eps': SNum('conv_eps'),
@@ -401,13 +474,19 @@ class EvpAls(Contract):
         g0 = mk_tt(state, 'initial_guess', m0, order=op.order)
         gv = mk_tt(state, 'operator_gevp', m0, order=op.order) if inst['gevp'] else NONE
         nev = 1 if inst['number_ev'] == 'one' else fresh('number_ev')
-        return {'operator': op, 'initial_guess': g0, 'previous': SList(fresh('previous_ref'), None, items=[]), 'shift': SNum('shift'), 'operator_gevp': gv,
+        pv = [mk_tt(state, 'previous%d' % q, m0, order=op.order) for q in range(inst.get('nprev', 0))]
+        return {'operator': op, 'initial_guess': g0, 'previous': SList(fresh('previous_ref'), None, items=pv), 'shift': SNum('shift'), 'operator_gevp': gv,
                 'number_ev': nev, 'repeats': fresh('repeats'), 'conv_eps': SNum('conv_eps'), 'solver': inst['solver'], 'sigma': SNum('sigma'), 'real': True}
 
     def domain_extra(self, S):
         nev = S.a['number_ev']
         if not isinstance(nev, int):
             yield 'number_ev>=2', zi(nev) >= 2
+        pv = S.a['previous']
+        if isinstance(pv, SList) and pv.items is not None:
+            for q, p_ in enumerate(pv.items):
+                if isinstance(p_, STT):
+                    yield from type_domain('previous[%d]' % q, p_, S.mark0)
 
     def requires(self, S):
         a = S.a
@@ -419,6 +498,10 @@ class EvpAls(Contract):
         yield 'boundary-ranks-1', z3.And(boundary_one(op), boundary_one(g0))
         if isinstance(gv, STT):
             yield 'operator_gevp-like-operator', gevp_like(gv, op)
+        pv = a['previous']
+        yield 'previous-is-a-list-of-at-most-two-TT', isinstance(pv, SList) and pv.items is not None and len(pv.items) <= 2 and all(isinstance(x, STT) for x in pv.items)
+        for q, p_ in enumerate(pv.items or []):
+            yield 'previous[%d]-is-a-vector-on-the-column-dimensions' % q, prev_like(p_, op)
         # derived from the code: eigenvalues is only bound inside the sweeps
         yield 'repeats>=1', zi(a['repeats']) >= 1
         # derived from the reshape of the eigenvector block (A-nonsingular, admissible ranks): every micro problem has >= number_ev unknowns
@@ -462,8 +545,12 @@ class EvpAls(Contract):
         yield 'ranks<=guess', FA(0, d + 1, lambda j: lst_get(sol.ranks, j) <= lst_get(g0.ranks, j))
         yield 'buffers-fresh', FA(0, d, lambda j: lst_get(sol.cores, j).buf >= V.mark0)
         names = ['op_left', 'op_right'] + (['op_gevp_left', 'op_gevp_right'] if isinstance(tr.f['operator_gevp'], STT) else [])
+        pv = prevs(tr)
+        pst = prev_stacks(st, 'left', len(pv)) + prev_stacks(st, 'right', len(pv))
+        yield 'previous-tensors', z3.And(*[p_.ref == p0.ref for p_, p0 in zip(pv, V.old('previous').items)])
         yield 'stacks', z3.And(*[z3.And(zi(st.f[n].len_term()) == d, st.f[n].ref >= V.mark0) for n in names],
-                               z3.Distinct(*([st.f[n].ref for n in names] + [sol.cores.ref, sol.ranks.ref, sol.row_dims.ref, sol.col_dims.ref])))
+                               *[z3.And(zi(l.len_term()) == d, l.ref >= V.mark0) for l in pst],
+                               z3.Distinct(*([st.f[n].ref for n in names] + [l.ref for l in pst] + [sol.cores.ref, sol.ranks.ref, sol.row_dims.ref, sol.col_dims.ref])))
 
     def invariant(self, key, inst):
         me = self
@@ -474,13 +561,18 @@ class EvpAls(Contract):
             pairs = [(st.f['op_left'], st.f['op_right'], op)] + ([(st.f['op_gevp_left'], st.f['op_gevp_right'], V.old('operator_gevp'))] if isinstance(g, STT) else [])
             return pairs, op, sol
 
+        def penv(V, side):
+            tr, st = V['trains'], V['stacks']
+            pv = V.old('previous').items
+            return list(zip(prev_stacks(st, side, len(pv)), pv))
+
         def rights(V, cond):
             pairs, op, sol = env(V)
-            return FA(0, zi(op.order), lambda j: z3.Implies(cond(j), z3.And(*[Rop(r, o, sol, j) for (_, r, o) in pairs])))
+            return FA(0, zi(op.order), lambda j: z3.Implies(cond(j), z3.And(*[Rop(r, o, sol, j) for (_, r, o) in pairs], *[PR(l, p_, sol, j) for l, p_ in penv(V, 'right')])))
 
         def lefts(V, cond):
             pairs, op, sol = env(V)
-            return FA(0, zi(op.order), lambda j: z3.Implies(cond(j), z3.And(*[Lop(l, o, sol, j) for (l, _, o) in pairs])))
+            return FA(0, zi(op.order), lambda j: z3.Implies(cond(j), z3.And(*[Lop(l, o, sol, j) for (l, _, o) in pairs], *[PL(l, p_, sol, j) for l, p_ in penv(V, 'left')])))
 
         def inv_init(V, i, k):
             _, op, sol = env(V)
